@@ -90,12 +90,16 @@ def gen_cases(rng, tier):
         tab['g'] = tab['g'][:a + b]
         tab.pop('g_cat', None)
         for w in (1, 2):
-            for agg in ('mean', 'sum', 'var'):
+            for agg in ('mean', 'sum', 'var', 'std'):
+                dd = {'ddof': rng.choice([0, 0, 1, 2])} if agg in ('var', 'std') else {}
                 src = rng.choice(['df', 'series'])
                 yield {'tab': tab, 'sizes': [1] * (a + b), 'ex': 'rows',
-                       'op': {'fam': 'win', 'src': src, 'sel': 'x' if src == 'df' else None, 'selpos': 'before', 'agg': agg, 'win': ['n', w], 'pre': None}}
+                       'op': {'fam': 'win', 'src': src, 'sel': 'x' if src == 'df' else None, 'selpos': 'before', 'agg': agg, 'win': ['n', w], 'pre': None, **dd}}
                 yield {'tab': tab, 'sizes': [1] * (a + b), 'ex': 'rows',
-                       'op': {'fam': 'wgb', 'src': 'df', 'sel': 'x', 'by': [rng.choice(['col', 'ser']), 'g'], 'agg': agg, 'win': ['n', w], 'pre': None}}
+                       'op': {'fam': 'wgb', 'src': 'df', 'sel': 'x', 'by': [rng.choice(['col', 'ser']), 'g'], 'agg': agg, 'win': ['n', w], 'pre': None, **dd}}
+    # a history found by the thorough tier (seed 91): the sum of squares of an emptied group keeps a NEGATIVE residue, -residue / 0
+    # is -inf, clipped to 0: std(ddof=0) of no observation came out as 0.0 instead of NaN
+    yield {'tab': {'x': [None, 0.1, None, 0.1, 0.1, 0.1, 0.1, 0.1, 0.1, 0.1, None, 0.1, None, None, 0.1, 0.1], 'y': [1, 2, 2, 0, 0, 2, 4, 0, 4, 3, 4, 3, 1, 1, 4, 1], 'g': ['b', 'c', 'b', 'b', 'c', 'c', 'a', 'd', 'd', 'd', 'd', 'c', 'b', 'a', 'd', 'c'], 'h': [1, 0, 0, 0, 0, 0, 0, 0, 0, 0, 0, 0, 0, 0, 0, 1], 't': None, 'g_cat': True}, 'sizes': [1, 2, 6, 4, 1, 1, 0, 1], 'ex': 'rows', 'op': {'fam': 'wgb', 'src': 'df', 'sel': 'x', 'by': ['col', 'h'], 'agg': 'std', 'win': ['n', 2], 'pre': None, 'ddof': 0}}
     n_w, n_g = (10, 10) if tier == 'quick' else (11, 11)
     for ti in range(n_tables(tier)):
         tab = E.gen_table(rng, nan=(ti % 2 == 1), time=(ti % 4 < 2))
